@@ -62,3 +62,21 @@ class F(importlib.abc.MetaPathFinder, importlib.abc.Loader):
         m=_Stub(spec.name); m.__path__=[]; return m
     def exec_module(self, m): pass
 sys.meta_path.insert(0, F())
+
+
+# build metadata normally generated at build time
+_bm = types.ModuleType('edb._buildmeta')
+_bm.VERSION = (7, 0, 0, 1, ())
+_bm.SHARED_DATA_DIR = '/nonexistent'
+_bm.RUNSTATE_DIR = '/nonexistent'
+sys.modules['edb._buildmeta'] = _bm
+import edb as _edb
+_edb._buildmeta = _bm
+STUBS += ['edb.server._rust_native._pg_rust', 'edb.server._rust_native._http',
+          'edb.server._rust_native._jwt']
+
+
+def install_bridge():
+    """Front-end bridge: real tokenizer + LALR tables from the real grammar + real reductions."""
+    from bridge import native
+    native.install(sys.modules['edb._edgeql_parser'])
